@@ -18,13 +18,180 @@ def dotted(node):
     return None
 
 
+_PURE_BUILTINS = {"len", "range", "enumerate", "reversed", "sorted", "list", "tuple", "set", "iter", "zip", "isinstance", "id", "bool",
+                  "any", "all", "sum", "min", "max", "repr", "str", "int", "print"}
+_MUTATORS = {"append", "extend", "insert", "pop", "remove", "clear", "sort", "reverse", "add", "discard", "update", "setdefault",
+             "popitem", "appendleft", "popleft", "__setitem__", "__delitem__"}
+
+
+def _own_scope_nodes(fn):
+    """nodes of fn's own scope (nested defs / lambdas / classes are entered only for their decorators and defaults)"""
+    out = []
+    stack = list(fn.body)
+    while stack:
+        n = stack.pop()
+        out.append(n)
+        if isinstance(n, (ast.FunctionDef, ast.AsyncFunctionDef, ast.Lambda, ast.ClassDef)):
+            continue
+        stack.extend(ast.iter_child_nodes(n))
+    return out
+
+
+def inline_single_use_aliases(tree):
+    """Normalisation pass (run once, right after parsing): locals that merely *name* something are replaced by what they name,
+    so that every analysis sees one spelling.  A local N qualifies when it is bound exactly once in its function, by a plain
+    assignment (or a tuple assignment of such pairs), is not captured by a nested function, every use of N lies lexically after
+    the assignment inside the same statement list, and the right-hand side is one of
+
+      A  X.attr          with N used in call position only            (add_atom = mol.add_atom;  heappop = heapq.heappop)
+      B  X is None / X is not None                                    (attributable = attribute_stack is not None)
+      C  X[<constant slice>]   with X never mutated or handed to a non-builtin call in the function
+                                                                      (symbol_kind = symbol[-4:-2])
+      D  a str / int literal                                          (err_line = "...{}...")
+
+    where X, Y are parameters or locals bound once, not re-bound after the assignment in that statement list.  The value of N at
+    each use is then the value the expression has there, so the substitution preserves behaviour (bound-method identity and
+    attribute hooks aside).  Positions are kept (copy_location)."""
+    import copy
+    for fn in ast.walk(tree):
+        if not isinstance(fn, (ast.FunctionDef, ast.AsyncFunctionDef)):
+            continue
+        for _round in range(3):
+            own = _own_scope_nodes(fn)
+            params = {a.arg for a in fn.args.args + fn.args.kwonlyargs + fn.args.posonlyargs} | \
+                ({fn.args.vararg.arg} if fn.args.vararg else set()) | ({fn.args.kwarg.arg} if fn.args.kwarg else set())
+            stores, loads = {}, {}
+            declared = set()
+            comp_bound = set()
+            for n in own:
+                if isinstance(n, ast.Name):
+                    (stores if isinstance(n.ctx, (ast.Store, ast.Del)) else loads).setdefault(n.id, []).append(n)
+                elif isinstance(n, (ast.Global, ast.Nonlocal)):
+                    declared |= set(n.names)
+                elif isinstance(n, ast.ExceptHandler) and n.name:
+                    stores.setdefault(n.name, []).append(n)
+                elif isinstance(n, ast.comprehension):
+                    comp_bound |= {x.id for x in ast.walk(n.target) if isinstance(x, ast.Name)}
+                elif isinstance(n, (ast.Import, ast.ImportFrom)):
+                    for a in n.names:
+                        stores.setdefault((a.asname or a.name).split(".")[0], []).append(n)
+            captured = set()
+            for n in own:
+                if isinstance(n, (ast.FunctionDef, ast.AsyncFunctionDef, ast.Lambda, ast.ClassDef)):
+                    captured |= {x.id for x in ast.walk(n) if isinstance(x, ast.Name)}
+            parent = {}
+            for n in [fn] + own:
+                for c in ast.iter_child_nodes(n):
+                    parent[id(c)] = n
+            mutated = set()
+            passed = set()
+            for n in own:
+                if isinstance(n, ast.Call):
+                    if isinstance(n.func, ast.Attribute) and isinstance(n.func.value, ast.Name) and n.func.attr in _MUTATORS:
+                        mutated.add(n.func.value.id)
+                    pure = isinstance(n.func, ast.Name) and n.func.id in _PURE_BUILTINS and n.func.id not in stores and n.func.id not in params
+                    if not pure:
+                        for a in list(n.args) + [k.value for k in n.keywords]:
+                            a = a.value if isinstance(a, ast.Starred) else a
+                            if isinstance(a, ast.Name):
+                                passed.add(a.id)
+                elif isinstance(n, (ast.Subscript, ast.Attribute)) and isinstance(n.ctx, (ast.Store, ast.Del)) and isinstance(n.value, ast.Name):
+                    mutated.add(n.value.id)
+                elif isinstance(n, ast.AugAssign) and isinstance(n.target, ast.Name):
+                    mutated.add(n.target.id)
+
+            def stable(x):      # a name whose binding cannot change under our feet
+                return isinstance(x, ast.Name) and x.id not in declared and x.id not in comp_bound and \
+                    ((x.id in params and x.id not in stores) or (x.id not in params and len(stores.get(x.id, ())) <= 1))
+
+            def const_bound(e):
+                return e is None or isinstance(e, ast.Constant) or (isinstance(e, ast.UnaryOp) and isinstance(e.op, ast.USub) and isinstance(e.operand, ast.Constant))
+
+            def kind(e):
+                if isinstance(e, ast.Attribute) and isinstance(e.ctx, ast.Load) and stable(e.value):
+                    return "A"
+                if isinstance(e, ast.Compare) and len(e.ops) == 1 and isinstance(e.ops[0], (ast.Is, ast.IsNot)) and stable(e.left) \
+                        and isinstance(e.comparators[0], ast.Constant) and e.comparators[0].value is None:
+                    return "B"
+                if isinstance(e, ast.Subscript) and isinstance(e.ctx, ast.Load) and stable(e.value) and e.value.id not in mutated \
+                        and e.value.id not in passed:
+                    sl = e.slice
+                    if isinstance(sl, ast.Slice) and const_bound(sl.lower) and const_bound(sl.upper) and sl.step is None:
+                        return "C"
+                if isinstance(e, ast.Constant) and type(e.value) in (str, int):
+                    return "D"
+                return None
+            done = False
+            for st in own:
+                if not (isinstance(st, ast.Assign) and len(st.targets) == 1):
+                    continue
+                t, v = st.targets[0], st.value
+                if isinstance(t, ast.Name):
+                    pairs = [(t, v)]
+                elif isinstance(t, ast.Tuple) and isinstance(v, ast.Tuple) and len(t.elts) == len(v.elts) and all(isinstance(x, ast.Name) for x in t.elts):
+                    pairs = list(zip(t.elts, v.elts))
+                else:
+                    continue
+                blk = None
+                par = parent.get(id(st))
+                for fld in ("body", "orelse", "finalbody"):
+                    b = getattr(par, fld, None)
+                    if isinstance(b, list) and any(x is st for x in b):
+                        blk = b
+                if blk is None:
+                    continue
+                i = next(k for k, x in enumerate(blk) if x is st)
+                after = {id(x) for s2 in blk[i + 1:] for x in ast.walk(s2)}
+                ok = True
+                for tn, e in pairs:
+                    N = tn.id
+                    k = kind(e)
+                    if k is None or N in params or N in declared or N in captured or N in comp_bound or len(stores.get(N, ())) != 1 \
+                            or not loads.get(N) or not all(id(u) in after for u in loads[N]):
+                        ok = False
+                        break
+                    if k == "A" and not all(isinstance(parent.get(id(u)), ast.Call) and parent[id(u)].func is u for u in loads[N]):
+                        ok = False
+                        break
+                    # the names the expression reads are not re-bound after the assignment in this statement list
+                    for x in ast.walk(e):
+                        if isinstance(x, ast.Name) and any(id(s_) in after for s_ in stores.get(x.id, ()) if isinstance(s_, ast.AST)):
+                            ok = False
+                    if len({p[0].id for p in pairs}) != len(pairs) or any(isinstance(x, ast.Name) and x.id in {p[0].id for p in pairs} for x in ast.walk(e)):
+                        ok = False
+                if not ok:
+                    continue
+                for tn, e in pairs:
+                    for u in loads[tn.id]:
+                        new = ast.copy_location(copy.deepcopy(e), u)
+                        for x in ast.walk(new):
+                            ast.copy_location(x, u)
+                        pu = parent[id(u)]
+                        for fld, val in ast.iter_fields(pu):
+                            if val is u:
+                                setattr(pu, fld, new)
+                            elif isinstance(val, list):
+                                for j, y in enumerate(val):
+                                    if y is u:
+                                        val[j] = new
+                if len(blk) > 1:
+                    del blk[i]
+                else:
+                    blk[i] = ast.copy_location(ast.Pass(), st)
+                done = True
+                break          # tables are stale: recompute
+            if not done:
+                break
+    return tree
+
+
 class Module:
     def __init__(self, name, path, src, root=REPO):
         self.name = name
         self.root = root
         self.path = path
         self.src = src
-        self.tree = ast.parse(src, filename=path)
+        self.tree = inline_single_use_aliases(ast.parse(src, filename=path))
         self.imports = {}        # local name -> (module, attr or None)
         self.defs = {}           # name -> Func | Cls
         self.assigned = {}       # name -> [stmt] (module-level bindings, in order)
